@@ -301,10 +301,11 @@ def sigFromPy(pobj):
         for k, v in pobj.items():
             if vtype is None:
                 vtype = type(v)
+                vfirst = v
             elif not isinstance(v, vtype):
                 same = False
         if same:
-            return 'a{' + sigFromPy(k) + sigFromPy(v) + '}'
+            return 'a{' + sigFromPy(k) + sigFromPy(vfirst) + '}'
         else:
             return 'a{' + sigFromPy(k) + 'v}'
 
